@@ -35,6 +35,9 @@ static hwloc_obj_t find_gp(hwloc_topology_t t, unsigned long gp) {
   return r;
 }
 static int opt_xmldigest, opt_stores, opt_udspecial;
+/* option stores 2 (lazy): the distances / memattrs / cpukinds queries of the projection refresh caches inside the library, which would
+ * hide an exporter that forgets to; they only start with the first xml_export event (logged after the export call itself) */
+static int xml_seen;
 /* userdata deliveries made by the export callback / received by the import callback */
 struct deliv { unsigned long gp; char name[32]; int hasname; unsigned char data[64]; size_t len; };
 static struct deliv *dv; static unsigned ndv, capdv; static int dv_fail;
@@ -107,7 +110,8 @@ static void out_topos(void) {
       project_topology(topo[s], 1);
       hwv_len--; out(",\"xd\":");                                 /* reopen the projection record */
       if (opt_xmldigest) out_xmldigest(topo[s]); else out("[0,0,0,0,0]");
-      out(",\"stores\":"); if (opt_stores) project_stores(topo[s]); else out("0");
+      { int st = opt_stores == 1 || (opt_stores == 2 && xml_seen);
+        out(",\"hasst\":%d,\"stores\":", st); if (st) project_stores(topo[s]); else out("0"); }
       out("}");
     }
     else out("{\"n\":0,\"live\":%d}", topo[s] ? 1 : 0);
@@ -122,7 +126,7 @@ static void do_reset(char *p, int beh) {
   int s;
   for (s = 0; s < MAXSLOT; s++) { if (topo[s]) hwloc_topology_destroy(topo[s]); topo[s] = NULL; loaded[s] = 0; }
   nslots = (int)hwv_tokl(&p); if (nslots < 1) nslots = 1; if (nslots > MAXSLOT) nslots = MAXSLOT;
-  opt_xmldigest = 0; opt_stores = 0; opt_udspecial = 0;
+  opt_xmldigest = 0; opt_stores = 0; opt_udspecial = 0; xml_seen = 0;
   unsetenv("HWLOC_FSROOT"); unsetenv("HWLOC_CPUID_PATH"); unsetenv("HWLOC_COMPONENTS"); unsetenv("HWLOC_XMLFILE"); unsetenv("HWLOC_SYNTHETIC");
   /* HWLOC_LIBXML_IMPORT / HWLOC_LIBXML_EXPORT are decided once per process by the library and are given by the caller: kept */
   unsetenv("HWLOC_THISSYSTEM"); unsetenv("HWLOC_DUMPED_HWDATA_DIR"); unsetenv("HWLOC_X86_TOPOEXT_NUMANODES"); unsetenv("HWLOC_THISSYSTEM_ALLOWED_RESOURCES"); unsetenv("HWLOC_XML_EXPORT_SUPPORT");
@@ -243,7 +247,7 @@ static void handler(char **lines, size_t n, int beh) {
       } else { ret = hwloc_topology_export_xml(topo[s], path, fl); err = errno; }
       hwloc_topology_set_userdata_export_callback(topo[s], NULL);
       { FILE *f = fopen(path, "rb"); if (f) { int c; flen = 0; while ((c = fgetc(f)) != EOF) { h ^= (unsigned char)c; h *= 1099511628211ULL; flen++; } fclose(f); } }
-      (void)i2;
+      (void)i2; xml_seen = 1;
       ev_begin("xml_export", s); out(",\"mode\":\"%s\",\"path\":", mode ? mode : ""); out_jstr(path);
       out(",\"flags\":%lu,\"ud\":%d,\"len\":%ld,\"digest\":[%u,%u,%u,%u],\"cbfail\":%d,\"deliv\":", fl, ud, flen,
           (unsigned)(h & 0xffff), (unsigned)((h >> 16) & 0xffff), (unsigned)((h >> 32) & 0xffff), (unsigned)((h >> 48) & 0xffff), dv_fail);
